@@ -172,6 +172,7 @@ class World(object):
         self.globals = []       # gid -> (module, name)
         self.fieldtypes = {}    # (class|'?', field) -> typeset
         self.fields = {}        # field name -> index
+        self.inheritance = False
         self.class_attrs = {}   # (class, name) -> ('scalar',) | ('object', gid, typeset): class-level data
         self.assumptions = set()
         self.giveups = []
@@ -201,6 +202,8 @@ class World(object):
                         continue
                     self.add_fn(Fn(mod, None, n.name, n))
                 elif isinstance(n, ast.ClassDef):
+                    if any(not (isinstance(b, ast.Name) and b.id == 'object') for b in n.bases):
+                        self.inheritance = True       # method resolution is not by the class alone any more
                     self.classes[n.name] = {}
                     self.class_module[n.name] = mod
                     for b in n.body:
@@ -544,7 +547,7 @@ class Typer(object):
         operand may be a plain value, or a class that lacks the forward method `fwd`, or whose forward
         method can return NotImplemented.  (No class of the package derives from another one, so the
         subclass-priority rule of reflected operands never applies.)"""
-        if self.may_be_plain(tl):
+        if self.may_be_plain(tl) or self.w.inheritance:
             return True
         for c in self.classes_of(tl):
             m = self.w.classes[c].get(fwd)
